@@ -16,10 +16,16 @@
    ops:  n:<d>  f:<d>:<v,v,…>  c:<d>:<src>  d:<h>  p:<h>:<v>  g:<h>:<i>  l:<h>  e:<h>  k:<h>
          s:<h>:<i>:<j>  +:<d>:<a>:<b>  ?:<h>:<v>  i:<h>:<v>  =:<a>:<b> (typed)  ~:<a>:<b> (erased)
          v:<h>  it:<h>  j:<h>:<byte,byte,…> (join with that separator; element v = the string `elemStr v`)
+                                          a token `for:<tmp>:<h>:<n>:<k>:<body>` is a lowered script loop (`forOps`)
    `c15 str <v>`                       → the bytes of `elemStr v` (the string the element value `v` stands for)
+   `c15 runf <sz> <nslots> <op> …`     → as `run` for a `List[f64]`: element values travel as binary64 bit
+                                          patterns `b`; the model's element value is `f64Base + b`
+   `c15 runmf <sz> <nslots> <tok> …`   → `runm` for a `List[f64]`
+   `c15 feq <a> <b>`                   → `b1` / `b0`: `elemEq` of the floats with bit patterns a, b
 -/
 import Driver.Util
 import RotoV.Model.ListM
+import RotoV.Model.ListFor
 
 namespace Driver.C15
 open RotoV RotoV.ListM
@@ -109,6 +115,27 @@ def stepPinned (sz : Nat) (s : St) (op : Op) : Out × St :=
     | _, _ => (.fault .badHandle, s)
   | op => step sz s op
 
+/-- a token of `runm`: one operation, or a lowered script loop
+    `for:<tmp>:<h>:<n>:<k>:<body op, "/" for ":">` = `forOps tmp h bodies` with `n`
+    iterations whose `k`-th body is the given operation (the others are empty) -/
+def expandTok (tok : String) : Option (List Op) :=
+  match tok.splitOn ":" with
+  | ["for", tmp, h, n, k, body] => do
+    let tmp ← nat? tmp
+    let h ← nat? h
+    let n ← nat? n
+    let k ← nat? k
+    let b ← parseOp (body.replace "/" ":")
+    pure (forOps tmp h ((List.range n).map fun i => if i == k then [b] else []))
+  | _ => (parseOp tok).map fun op => [op]
+
+/-- run the operations a token stands for, one record (the result) each -/
+def runOps (stepf : St → Op → Out × St) (shw : Op → Out → String) : St → List Op → List String → St × List String
+  | s, [], acc => (s, acc)
+  | s, op :: rest, acc =>
+    let r := stepf s op
+    runOps stepf shw r.2 rest (shw op r.1 :: acc)
+
 /-- `runm`: as `run`, but a record is only the operation's result; the token `!`
     is not an operation: it dumps every variable (`<slots>;<live>`) -/
 def runMarked (sz : Nat) : St → List String → List String → Option (List String)
@@ -116,11 +143,52 @@ def runMarked (sz : Nat) : St → List String → List String → Option (List S
   | s, tok :: rest, acc =>
     if tok == "!" then runMarked sz s rest (s!"!{showSlots s};{s.live}" :: acc)
     else
-      match parseOp tok with
+      match expandTok tok with
       | none => none
-      | some op =>
-        let r := step sz s op
-        runMarked sz r.2 rest (showOut r.1 :: acc)
+      | some ops =>
+        let r := runOps (step sz) (fun _ o => showOut o) s ops acc
+        runMarked sz r.1 rest r.2
+
+/-- element values of a `List[f64]` history arrive as bit patterns -/
+def liftOp : Op → Op
+  | .fromVec d xs => .fromVec d (xs.map (· + f64Base))
+  | .push h v => .push h (v + f64Base)
+  | .contains h v => .contains h (v + f64Base)
+  | .index h v => .index h (v + f64Base)
+  | op => op
+
+/-- … and leave as bit patterns (`index` returns a position, not an element) -/
+def lowerOut (op : Op) : Out → Out
+  | .opt (some v) => match op with
+    | .get .. => .opt (some (v - f64Base))
+    | _ => .opt (some v)
+  | .vals l => .vals (l.map (· - f64Base))
+  | o => o
+
+def showSlotsF (s : St) : String :=
+  "/".intercalate (s.slots.map fun
+    | none => "-"
+    | some a =>
+      match s.getAlloc a with
+      | none => "freed"
+      | some l => s!"{l.len}:{l.cap}:{showNats (l.elems.map (· - f64Base))}{if l.locked then ":LOCKED" else ""}")
+
+def runHistF (sz : Nat) : St → List Op → List String → List String
+  | _, [], acc => acc.reverse
+  | s, op :: rest, acc =>
+    let r := step sz s (liftOp op)
+    runHistF sz r.2 rest (s!"{showOut (lowerOut op r.1)};{showSlotsF r.2};{r.2.live}" :: acc)
+
+def runMarkedF (sz : Nat) : St → List String → List String → Option (List String)
+  | _, [], acc => some acc.reverse
+  | s, tok :: rest, acc =>
+    if tok == "!" then runMarkedF sz s rest (s!"!{showSlotsF s};{s.live}" :: acc)
+    else
+      match expandTok tok with
+      | none => none
+      | some ops =>
+        let r := runOps (fun s op => step sz s (liftOp op)) (fun op o => showOut (lowerOut op o)) s ops acc
+        runMarkedF sz r.1 rest r.2
 
 def handle (args : List String) : String :=
   match args with
@@ -143,6 +211,21 @@ def handle (args : List String) : String :=
     match nat? sz, nat? n, toks.mapM parseOp with
     | some sz, some n, some ops => "|".intercalate (runHist (step sz) (St.init n) ops [])
     | _, _, _ => "bad-op"
+  | ["feq", a, b] =>
+    match nat? a, nat? b with
+    | some a, some b => if elemEq (a + f64Base) (b + f64Base) then "b1" else "b0"
+    | _, _ => "bad-op"
+  | "runf" :: sz :: n :: toks =>
+    match nat? sz, nat? n, toks.mapM parseOp with
+    | some sz, some n, some ops => "|".intercalate (runHistF sz (St.init n) ops [])
+    | _, _, _ => "bad-op"
+  | "runmf" :: sz :: n :: toks =>
+    match nat? sz, nat? n with
+    | some sz, some n =>
+      match runMarkedF sz (St.init n) toks [] with
+      | some recs => "|".intercalate recs
+      | none => "bad-op"
+    | _, _ => "bad-op"
   | "runm" :: sz :: n :: toks =>
     match nat? sz, nat? n with
     | some sz, some n =>
